@@ -210,13 +210,13 @@ func c20Run(c *Case) {
 func init() {
 	register(&Prop{
 		ID: "C20", Level: "exploration",
-		Rule: "enumerated boundary programs, each run in its own subprocess under a 4 GiB address-space limit (process death, also by running out of memory, is a violation): recursion of 6 shapes (direct, mutual-2, mutual-3, through match expression body, through match block body, through an argument) x 5 per-level expression nestings (none, 100 / 3000 prefix operators, 100 parenthesised additions, 3000 array literals) x depth targets {1000, 3000, unbounded}, plus recursion from a rule pattern and with two recursive calls; array stores and reads at indices 999999 / 1000000 / 1048576 / 1048577 / 1999999 / 2000000 / 1e9 / 1e18 / 1e23 / -1 / -1e18 / 0.5 on empty and non-empty arrays, through $-paths, through freshly created nested paths, and repeated in a loop; printf widths 4096 / +-65536 / 065536 / +-65537 / 1e5 / +-1e10 / 30 digits for %s %f %v; JSON input nested 1000 / 5000 / 9999 / 10001 / 20000 / 1000000 deep in arrays, objects and mixtures followed by a second value, and a million unclosed brackets. Oracle: bands, not today's constants (1000 frames, index <= 1e6, width <= 65536, nesting <= 5000 must work; unbounded recursion, index >= 2e6, width > 65536, nesting >= 20000 must be an ordinary runtime/JSON error; in between either), the marker printed before the step must be kept. Evidence: peak RSS per family and the frame depth at refusal (hook). Every case is non-trivial.",
-		NumCases:      func(tier string) int { return len(c20List) },
-		Run:           c20Run,
-		MinConclusive: func(tier string) int { return len(c20List) * 9 / 10 },
-		Chunk:         func(tier string) int { return 1 },
+		Rule:             "enumerated boundary programs, each run in its own subprocess under a 4 GiB address-space limit (process death, also by running out of memory, is a violation): recursion of 6 shapes (direct, mutual-2, mutual-3, through match expression body, through match block body, through an argument) x 5 per-level expression nestings (none, 100 / 3000 prefix operators, 100 parenthesised additions, 3000 array literals) x depth targets {1000, 3000, unbounded}, plus recursion from a rule pattern and with two recursive calls; array stores and reads at indices 999999 / 1000000 / 1048576 / 1048577 / 1999999 / 2000000 / 1e9 / 1e18 / 1e23 / -1 / -1e18 / 0.5 on empty and non-empty arrays, through $-paths, through freshly created nested paths, and repeated in a loop; printf widths 4096 / +-65536 / 065536 / +-65537 / 1e5 / +-1e10 / 30 digits for %s %f %v; JSON input nested 1000 / 5000 / 9999 / 10001 / 20000 / 1000000 deep in arrays, objects and mixtures followed by a second value, and a million unclosed brackets. Oracle: bands, not today's constants (1000 frames, index <= 1e6, width <= 65536, nesting <= 5000 must work; unbounded recursion, index >= 2e6, width > 65536, nesting >= 20000 must be an ordinary runtime/JSON error; in between either), the marker printed before the step must be kept. Evidence: peak RSS per family and the frame depth at refusal (hook). Every case is non-trivial.",
+		NumCases:         func(tier string) int { return len(c20List) },
+		Run:              c20Run,
+		MinConclusive:    func(tier string) int { return len(c20List) * 9 / 10 },
+		Chunk:            func(tier string) int { return 1 },
 		CrashIsViolation: true,
-		Exhaustive:    func(tier string) string { return "the boundary program table (quick and thorough run the same table)" },
-		Assumptions:   []string{"limits are checked as bands so that a maintainer may move a constant; only orders of magnitude are pinned by the property", "depth 1000 is required to work only without additional per-level expression nesting"},
+		Exhaustive:       func(tier string) string { return "the boundary program table (quick and thorough run the same table)" },
+		Assumptions:      []string{"limits are checked as bands so that a maintainer may move a constant; only orders of magnitude are pinned by the property", "depth 1000 is required to work only without additional per-level expression nesting"},
 	})
 }
